@@ -654,6 +654,11 @@ def special_c03(res, tier, seed, workdir, stats):
     stats.append(st)
     res.cov["interpreter"] = "cargo +nightly miri run --target aarch64-unknown-linux-gnu (real src/aarch64.rs; ushl.v4i32 shim in the runner)"
 
+    def esc():
+        st2 = check_mod().run_config(res, "C03", tier, seed * 4099 + 17, "miri-aarch64", None, info0, workdir, gen_override=gen_simd_target("neon"), executor=ex, label="c03esc")
+        stats.append(dict(st2, escalation="simd translation"))
+    simd_translation_for("neon", "C03", res, tier, seed, workdir, stats, esc)
+
 
 def special_c04(res, tier, seed, workdir, stats):
     holder = {}
@@ -667,6 +672,11 @@ def special_c04(res, tier, seed, workdir, stats):
     st["target_info"] = (holder.get("info") or {}).get("_line")
     stats.append(st)
     res.cov["interpreter"] = "MIRI_NO_STD=1 cargo +nightly miri run --target wasm32-unknown-unknown -Ctarget-feature=+simd128 (real src/wasm.rs)"
+
+    def esc():
+        st2 = check_mod().run_config(res, "C04", tier, seed * 4099 + 19, "miri-wasm32-simd128", None, info0, workdir, gen_override=gen_simd_target("wasm"), executor=ex, label="c04esc")
+        stats.append(dict(st2, escalation="simd translation"))
+    simd_translation_for("wasm", "C04", res, tier, seed, workdir, stats, esc)
 
 
 # ---------------------------------------------------------------- C09
@@ -887,57 +897,71 @@ def core_translation(res, tier, seed, workdir, stats):
         stats.append(dict(st2, escalation="core translation"))
 
 
-SIMD_LEAN = os.path.join(hh.LEAN, "HH", "Generated", "SimdCore.lean")
+SIMD_FILES = {"x86": "SimdCore", "neon": "NeonCore", "wasm": "WasmCore"}
 SIMD_THMS = {"SseHash::zipper_merge": "Sse.zipperMerge_eq", "SseHash::update": "Sse.update_eq", "SseHash::permute_and_update": "Sse.permuteAndUpdate_eq",
              "SseHash::modular_reduction": "Sse.modularReduction_eq", "AvxHash::zipper_merge": "Avx.zipperMerge_eq", "AvxHash::update": "Avx.update_eq",
-             "AvxHash::permute_and_update": "Avx.permuteAndUpdate_eq", "AvxHash::modular_reduction": "Avx.modularReduction_eq", "AvxHash::permute": "Avx.permute_eq"}
+             "AvxHash::permute_and_update": "Avx.permuteAndUpdate_eq", "AvxHash::modular_reduction": "Avx.modularReduction_eq", "AvxHash::permute": "Avx.permute_eq",
+             "NeonHash::zipper_merge": "NeonG.zipperMerge_eq", "NeonHash::update": "NeonG.update_eq", "NeonHash::permute_and_update": "NeonG.permuteAndUpdate_eq",
+             "NeonHash::modular_reduction": "NeonG.modularReduction_eq",
+             "WasmHash::zipper_merge": "WasmG.zipperMerge_eq", "WasmHash::update": "WasmG.update_eq", "WasmHash::permute_and_update": "WasmG.permuteAndUpdate_eq",
+             "WasmHash::modular_reduction": "WasmG.modularReduction_eq"}
+SIMD_SRC = {"x86": "src/x86/sse.rs + v2x64u.rs and src/x86/avx.rs + v4x64u.rs", "neon": "src/aarch64.rs (NeonHash, its V2x64U and _mm_slli_si128_8)",
+            "wasm": "src/wasm.rs (WasmHash, its V2x64U and the emulated _mm_* helpers)"}
 
 
-def simd_translation(res, tier, seed, workdir, stats):
-    """second tie for the straight-line intrinsic code of C02: `simdgen` interprets src/x86/sse.rs + v2x64u.rs and
-    src/x86/avx.rs + v4x64u.rs symbolically (newtype erased, operators resolved through the wrapper's own trait and
-    inherent impls, every `_mm*` call mapped to the modelled intrinsic) and emits HH/Generated/SimdCore.lean with one
-    theorem per function: translation = hand-written SSE/AVX model, for all register values (by `rfl`).  Advisory, like
-    the portable core translation: never an alarm by itself."""
+def simd_translation_for(which, pid, res, tier, seed, workdir, stats, escalate):
+    """second tie for the straight-line intrinsic code of a SIMD back end: `simdgen` interprets the back end's source
+    symbolically (newtype erased, operators resolved through the wrapper's own trait and inherent impls, free helper
+    functions inlined, every intrinsic mapped to the modelled one) and emits HH/Generated/<file>.lean with one theorem
+    per function: translation = hand-written model, for all register values (by `rfl`).  Advisory, like the portable
+    core translation: never an alarm by itself."""
+    mod = SIMD_FILES[which]
+    lean = os.path.join(hh.LEAN, "HH", "Generated", mod + ".lean")
     cdir = os.path.join(hh.ROOT, "harness", "facts")
     rc, out, err = hh.sh(["cargo", "build", "--offline", "--release", "-q"], cwd=cdir, env={"CARGO_TARGET_DIR": os.path.join(hh.BUILD, "t-facts")}, timeout=1800)
-    info = dict(translator="harness/facts/src/bin/simdgen.rs (syn; symbolic execution of sse.rs/avx.rs with their wrapper types v2x64u.rs/v4x64u.rs)")
+    info = dict(translator=f"harness/facts/src/bin/simdgen.rs (syn; symbolic execution of {SIMD_SRC[which]})")
     res.cov["source_translation"] = info
     if rc != 0:
         info["status"] = "not executed: translator does not build"
         return
-    tmp = SIMD_LEAN + ".new"
-    status_json = os.path.join(hh.BUILD, "simdgen.json")
-    rc, out, err = hh.sh([os.path.join(hh.BUILD, "t-facts", "release", "simdgen"), os.path.join(hh.REPO, "src", "x86"), tmp, status_json], timeout=300)
+    tmp = lean + ".new"
+    status_json = os.path.join(hh.BUILD, f"simdgen-{which}.json")
+    rc, out, err = hh.sh([os.path.join(hh.BUILD, "t-facts", "release", "simdgen"), os.path.join(hh.REPO, "src", "x86"), tmp, status_json, which], timeout=300)
     if rc != 0:
         info["status"] = "not executed: translator failed: " + (out + err)[-300:]
         return
     new = open(tmp).read()
-    old = open(SIMD_LEAN).read() if os.path.exists(SIMD_LEAN) else None
+    old = open(lean).read() if os.path.exists(lean) else None
     if new != old:
-        os.replace(tmp, SIMD_LEAN)
+        os.replace(tmp, lean)
     else:
         os.unlink(tmp)
     st = json.load(open(status_json))
     info["functions"] = st
     translated = [k for k, v in st.items() if v == "translated"]
-    ok, blog = hh.lake_build(["HH.Generated.SimdCore"])
+    ok, blog = hh.lake_build(["HH.Generated." + mod])
     thms = ["HH.Gen." + SIMD_THMS[f] for f in translated if f in SIMD_THMS]
     if ok:
-        ax, text = hh.audit_axioms("HH.Generated.SimdCore", thms)
+        ax, text = hh.audit_axioms("HH.Generated." + mod, thms)
         good = [t for t in thms if ax.get(t) is not None and not (ax[t] - hh.STD_AXIOMS)]
         info["theorems_checked"] = good
-        info["status"] = f"{len(translated)}/{len(st)} functions translated from the working tree; {len(good)}/{len(thms)} equality theorems (source translation = SSE/AVX model, all register values) checked by the kernel"
+        info["status"] = f"{len(translated)}/{len(st)} functions translated from the working tree; {len(good)}/{len(thms)} equality theorems (source translation = hand-written model, all register values) checked by the kernel"
         if len(good) == len(thms):
             return
     errs = [l for l in blog.split("\n") if "error" in l][:6]
     info["status"] = (info.get("status", "") + " | generated theorems do not all check: " + " ".join(errs))[:900]
-    res.notes.append("the translated SIMD core no longer equals the SSE/AVX model by definitional unfolding: escalating the C02 search (thorough generator on the real code)")
-    binp, _ = hh.build_runner("dev-std-base")
-    if binp:
-        i2 = hh.runner_info(binp)
-        st2 = check_mod().run_config(res, "C02", "thorough", seed * 4099 + 13, "dev-std-base", binp, i2, workdir, label="esc-simd")
-        stats.append(dict(st2, escalation="simd translation"))
+    res.notes.append(f"the translated SIMD core ({which}) no longer equals the model by definitional unfolding: escalating the {pid} search")
+    escalate()
+
+
+def simd_translation(res, tier, seed, workdir, stats):
+    def esc():
+        binp, _ = hh.build_runner("dev-std-base")
+        if binp:
+            i2 = hh.runner_info(binp)
+            st2 = check_mod().run_config(res, "C02", "thorough", seed * 4099 + 13, "dev-std-base", binp, i2, workdir, label="esc-simd")
+            stats.append(dict(st2, escalation="simd translation"))
+    simd_translation_for("x86", "C02", res, tier, seed, workdir, stats, esc)
 
 
 _c01_cross = mk_cross("C01", gen_cross_c01, ["s390x", "i686"])
